@@ -36,10 +36,17 @@ IsL == Mode = "L"
 IsV == Mode = "V"
 
 TReset == IsEvent("Reset") /\ l = 1 /\ UNCHANGED vars
+\* The driver makes its moves at quiescent moments only (S, L: synctest.Wait(); V: a call is at the beacon node and holds the
+\* lock, or nothing is under way): everything the implementation could do on its own has been done -- and logged, if it is an
+\* observable step -- before the next move of the environment.
+SQuietT == \A c \in SCalls : ss[c].pc \in {"idle", "wait", "ret"}
+LQuietT == \A c \in LCalls : ls[c].pc \in {"idle", "conn", "ret"} \/ (ls[c].pc = "sel" /\ ~ls[c].canc)
+VQuietT == \A c \in VCalls : \/ vs[c].pc \in {"idle", "req", "done", "ret"}
+                               \/ (vlock # 0 /\ vs[c].pc \in {"rdC", "rdA", "wlock", "tlock"})
 \* ----- S ------------------------------------------------------------------------------------------------------------
-TSCall == IsEvent("Call") /\ IsS /\ Ev.c \in SCalls /\ Ev.n \in Nodes /\ SCall(Ev.c, ArgsOf(Ev)) /\ SOnly
+TSCall == IsEvent("Call") /\ IsS /\ SQuietT /\ Ev.c \in SCalls /\ Ev.n \in Nodes /\ SCall(Ev.c, ArgsOf(Ev)) /\ SOnly
 TSReq == IsEvent("Req") /\ IsS /\ Ev.c \in SCalls /\ SReqStep(Ev.c) /\ ss'[Ev.c].req = ReqOf(Ev) /\ SOnly
-TSAns == IsEvent("Ans") /\ IsS /\ Ev.c \in SCalls /\ SAnswer(Ev.c, AnsOf(Ev)) /\ SOnly
+TSAns == IsEvent("Ans") /\ IsS /\ SQuietT /\ Ev.c \in SCalls /\ SAnswer(Ev.c, AnsOf(Ev)) /\ SOnly
 \* the duties come back as one list: the real ones first, as the beacon node listed them, then the synthetic ones
 TSRet == /\ IsEvent("Ret") /\ IsS /\ Ev.c \in SCalls /\ SRet(Ev.c) /\ SOnly
          /\ LET r == ss[Ev.c].res  n == Len(r.real) IN
@@ -52,16 +59,19 @@ TSRet == /\ IsEvent("Ret") /\ IsS /\ Ev.c \in SCalls /\ SRet(Ev.c) /\ SOnly
                                      /\ Ev.ntx = r.ntx /\ Ev.fee = r.fee
               /\ r.kind = "fwd" => Ev.tok = r.tok /\ Ev.g # SynthGraffiti /\ Ev.slot = ss[Ev.c].a.slot
               /\ r.kind \notin {"synth", "fwd"} => Ev.ver = ""
-TSScribble == IsEvent("Scribble") /\ IsS /\ Ev.c \in SCalls /\ SScribble(Ev.c) /\ SOnly
+TSScribble == IsEvent("Scribble") /\ IsS /\ SQuietT /\ Ev.c \in SCalls /\ SScribble(Ev.c) /\ SOnly
 TSSilent == IsS /\ Silent /\ (\E c \in SCalls : SQuietStep(c)) /\ SOnly
 \* ----- L ------------------------------------------------------------------------------------------------------------
 AddrOf(k) == IF k = 0 THEN "" ELSE "addr-" \o ToString(k)
 NameOf(k) == IF k = 0 THEN "" ELSE "fake-" \o ToString(k)
-TLCall == IsEvent("Call") /\ IsL /\ Ev.c \in LCalls /\ LCall(Ev.c, Ev.op, Ev.tok) /\ LOnly
+TLCall == IsEvent("Call") /\ IsL /\ LQuietT /\ Ev.c \in LCalls /\ LCall(Ev.c, Ev.op, Ev.tok) /\ LOnly
 TLProv == IsEvent("Prov") /\ IsL /\ Ev.c \in LCalls /\ LProv(Ev.c) /\ ls'[Ev.c].pid = Ev.pid /\ LOnly
-TLPAns == IsEvent("PAns") /\ IsL /\ Ev.c \in LCalls /\ LProvAnswer(Ev.c, Ev.how) /\ LOnly
-TLCancel == IsEvent("Cancel") /\ IsL /\ Ev.c \in LCalls /\ LCancel(Ev.c) /\ LOnly
-TLTick == IsEvent("Tick") /\ IsL /\ UNCHANGED vars
+TLPAns == IsEvent("PAns") /\ IsL /\ LQuietT /\ Ev.c \in LCalls /\ LProvAnswer(Ev.c, Ev.how) /\ LOnly
+TLCancel == IsEvent("Cancel") /\ IsL /\ LQuietT /\ Ev.c \in LCalls /\ LCancel(Ev.c) /\ LOnly
+\* the driver lets one millisecond pass: the ticker of every call that waits in the select of getOrCreateClient fires once
+TLTick == /\ IsEvent("Tick") /\ IsL /\ LQuietT /\ LOnly
+          /\ ls' = [c \in LCalls |-> IF ls[c].pc = "sel" THEN [ls[c] EXCEPT !.pc = "spin"] ELSE ls[c]]
+          /\ UNCHANGED <<lz, lcl>>
 TLRet == /\ IsEvent("Ret") /\ IsL /\ Ev.c \in LCalls /\ LRet(Ev.c) /\ LOnly
          /\ LET r == ls[Ev.c].res  op == ls[Ev.c].op IN
               CASE op \in ClientOps -> Ev.err = r.err /\ Ev.tok = r.tok /\ Ev.cl = (IF r.err = "" THEN r.cl ELSE 0)
@@ -71,13 +81,13 @@ TLRet == /\ IsEvent("Ret") /\ IsL /\ Ev.c \in LCalls /\ LRet(Ev.c) /\ LOnly
                 [] op = "cfa" -> Ev.cl = r.cl
                 [] OTHER -> TRUE
 TLSilent == /\ IsL /\ Silent /\ LOnly
-            /\ \E c \in LCalls : \/ LChk1(c) \/ LTry(c) \/ LSpinFail(c) \/ LSelTick(c) \/ LSelCtx(c) \/ LChk2(c) \/ LProvDone(c)
+            /\ \E c \in LCalls : \/ LChk1(c) \/ LTry(c) \/ LSpinFail(c) \/ LSelCtx(c) \/ LChk2(c) \/ LProvDone(c)
                                  \/ LUse(c) \/ LSet1(c) \/ LSet2(c) \/ LSync(c)
 \* ----- V ------------------------------------------------------------------------------------------------------------
 TVCall == IsEvent("Call") /\ IsV /\ Ev.c \in VCalls /\ VCall(Ev.c, Ev.op, Ev.slot) /\ VOnly
 TVReq == /\ IsEvent("Req") /\ IsV /\ Ev.c \in VCalls /\ (VAcquire(Ev.c) \/ VFallback(Ev.c)) /\ VOnly
          /\ vs'[Ev.c].req = Ev.state /\ SeqToSet(Ev.pks) = SeqToSet(Cfg.pubkeys) /\ Len(Ev.pks) = Len(Cfg.pubkeys)
-TVAns == IsEvent("Ans") /\ IsV /\ Ev.c \in VCalls /\ VAnswer(Ev.c, [how |-> Ev.how, vals |-> SeqToSet(Ev.vals)]) /\ VOnly
+TVAns == IsEvent("Ans") /\ IsV /\ VQuietT /\ Ev.c \in VCalls /\ VAnswer(Ev.c, [how |-> Ev.how, vals |-> SeqToSet(Ev.vals)]) /\ VOnly
 TVRet == /\ IsEvent("Ret") /\ IsV /\ Ev.c \in VCalls /\ VRet(Ev.c) /\ VOnly
          /\ LET r == vs[Ev.c].res IN
               vs[Ev.c].op = "trim" \/ (/\ Ev.err = r.err /\ SeqToSet(Ev.act) = r.act /\ Len(Ev.act) = Cardinality(r.act)
